@@ -17,9 +17,9 @@ import (
 	"berty.tech/go-ipfs-log/iface"
 	"berty.tech/go-ipfs-log/internal/vx"
 	"berty.tech/go-ipfs-log/io/jsonable"
+	"github.com/ipfs/boxo/path"
 	"github.com/ipfs/go-cid"
 	format "github.com/ipfs/go-ipld-format"
-	"github.com/ipfs/boxo/path"
 	coreiface "github.com/ipfs/kubo/core/coreiface"
 	"github.com/ipfs/kubo/core/coreiface/options"
 	"github.com/libp2p/go-libp2p/core/crypto"
@@ -51,8 +51,8 @@ type memAPI struct {
 	reads      []string       // hashes requested through Read (request journal)
 	fault      map[string]int // per-block fault kind
 	pin        *memPin
-	absentErr  error          // the error an absent block fails with (default: a plain "not found")
-	failWrites int            // the n-th write (1-based) fails; 0 = never
+	absentErr  error // the error an absent block fails with (default: a plain "not found")
+	failWrites int   // the n-th write (1-based) fails; 0 = never
 	writes     int
 	onWrite    func(api *memAPI, hash string, obj interface{})
 	gated      bool // reads go through vx.Gate (schedule replay of fetch completion orders)
